@@ -105,7 +105,7 @@ theorem encode_limit_zero_is_error (h : H) : encode h (some 0) = none := by
     unfold encItems
     simp only [List.length_append]
     have : (Postcard.encVarint (takeFitting 0 [] (sortTA (h.map fun x => (x.2, x.1))).reverse).length).length ≥ 1 := by
-      unfold Postcard.encVarint; split <;> simp
+      unfold Postcard.encVarint Postcard.encVarintAux; split <;> simp
     omega
   split
   · omega
